@@ -82,8 +82,9 @@ package jobconfig
 //@   loop 1 invariant -1 <= rangeindex && rangeindex < len(jobs)
 //@   loop 1 invariant forall k int :: 0 <= k && k <= rangeindex && hasSched(jobs[k]) ==> ns(lastScheduleTime.Time) >= ns(schedTime(jobs[k]))
 //@   loop 1 invariant lastScheduleTime.Time.IsZero() || (exists k int :: 0 <= k && k <= rangeindex && hasSched(jobs[k]) && lastScheduleTime.Time == schedTime(jobs[k]))
+//@   loop 1 invariant ns(lastScheduleTime.Time) >= ns(zero(time.Time))
 //@   ensures [C15] at-least-every-schedule-time: forall k int :: 0 <= k && k < len(jobs) && hasSched(jobs[k]) ==> tsNs(result) >= ns(schedTime(jobs[k]))
-//@   ensures [C15] is-one-of-them: result != nil ==> !result.Time.IsZero() && (exists k int :: 0 <= k && k < len(jobs) && hasSched(jobs[k]) && result.Time == schedTime(jobs[k]))
+//@   ensures [C15] is-one-of-them: result != nil ==> ns(result.Time) > ns(zero(time.Time)) && (exists k int :: 0 <= k && k < len(jobs) && hasSched(jobs[k]) && result.Time == schedTime(jobs[k]))
 
 // the latest start time of the given Jobs (nil if none has started)
 //@ func GetLastStartTime
@@ -92,8 +93,9 @@ package jobconfig
 //@   loop 1 invariant -1 <= rangeindex && rangeindex < len(jobs)
 //@   loop 1 invariant forall k int :: 0 <= k && k <= rangeindex && job.IsStarted(jobs[k]) ==> ns(lastStartTime.Time) >= ns(jobs[k].Status.StartTime.Time)
 //@   loop 1 invariant lastStartTime.Time.IsZero() || (exists k int :: 0 <= k && k <= rangeindex && job.IsStarted(jobs[k]) && lastStartTime.Time == jobs[k].Status.StartTime.Time)
+//@   loop 1 invariant ns(lastStartTime.Time) >= ns(zero(time.Time))
 //@   ensures [C15] at-least-every-start-time: forall k int :: 0 <= k && k < len(jobs) && job.IsStarted(jobs[k]) ==> tsNs(result) >= ns(jobs[k].Status.StartTime.Time)
-//@   ensures [C15] is-one-of-them: result != nil ==> !result.Time.IsZero() && (exists k int :: 0 <= k && k < len(jobs) && job.IsStarted(jobs[k]) && result.Time == jobs[k].Status.StartTime.Time)
+//@   ensures [C15] is-one-of-them: result != nil ==> ns(result.Time) > ns(zero(time.Time)) && (exists k int :: 0 <= k && k < len(jobs) && job.IsStarted(jobs[k]) && result.Time == jobs[k].Status.StartTime.Time)
 
 // the state reflects the counts and the schedule (C15)
 //@ pure stateFor(active int64, queued int64, sched *execution.ScheduleSpec) execution.JobConfigState =
